@@ -220,8 +220,25 @@ def judge_valid(step, want_name, want_digest_hex, key_type=None, digest=None):
 
 
 def daemon_proofs(n, seed):
-    """n (proof text, digest hex) pairs rendered by the daemon's own code."""
-    rc, recs, err = C.probe('tlsalpn', [{'count': n, 'seed': seed + 1}])
-    if rc != 0 or len(recs) < n:
-        raise C.Inconclusive('probe tlsalpn failed: rc=%s %s' % (rc, err[-300:]))
-    return [(r['proof'], digest_of_proof(r['proof'])) for r in recs]
+    """n (proof text, digest hex) pairs rendered by the daemon itself: a real issuance with tls-alpn-01 identifiers is run
+    against the mock CA and the `proof` variable received by the hook recorder is taken as is."""
+    from . import scenario as S
+    k = min(8, max(2, n))
+    plan = {'default': {'lifetimes_s': [100], 'chain_lens': [1]}}
+
+    def cfg(d, ca):
+        return S.std_config(d, ca, [{'name': 'c0', 'identifiers': [{'dns': 'p%d-%d.example.org' % (seed, i), 'challenge': 'tls-alpn-01'} for i in range(k)]}])
+    rounds = max(1, (min(n, 16) + k - 1) // k)
+    run = S.run_scenario('PROOFS', 'p%d_%d' % (os.getpid(), seed), cfg, plan, S.n_postops(rounds), timeout=60, settle=0)
+    try:
+        proofs = []
+        for h in run.hooks:
+            if C.hook_event(h) == 'challenge-tls-alpn-01':
+                p = h['kv'].get('proof', '')
+                if p and p not in [x[0] for x in proofs]:
+                    proofs.append((p, digest_of_proof(p)))
+        if len(proofs) < 2:
+            raise C.Inconclusive('could not obtain daemon-rendered tls-alpn-01 proofs (%d)' % len(proofs))
+        return [proofs[i % len(proofs)] for i in range(n)]
+    finally:
+        run.cleanup()
